@@ -285,7 +285,12 @@ func (s MinPriorityCoinSelector) CoinSelect(targetValue bchutil.Amount, coins []
 				if newMaxInputs > numLow {
 					newMaxInputs = numLow
 				}
-				newMinAvgValueAge := ((s.MinAvgValueAgePerInput * int64(allHigh.Num()+numLow)) - allHigh.TotalValueAge()) / int64(numLow)
+				neededValueAge := (s.MinAvgValueAgePerInput * int64(allHigh.Num()+numLow)) - allHigh.TotalValueAge()
+				newMinAvgValueAge := neededValueAge / int64(numLow)
+				if neededValueAge > 0 && neededValueAge%int64(numLow) != 0 {
+					// round up so the combined average cannot fall short
+					newMinAvgValueAge++
+				}
 
 				// find the minimum priority that can be added to set
 				lowSelect, err := (&MinPriorityCoinSelector{
